@@ -52,6 +52,64 @@ func interleave(rng *hx.Rng, rs []*tbl.Raw, base uint64, gaps bool) {
 	}
 }
 
+// interleaveWild lays the chunks out with NO ordering discipline: the chunks of all tracks in one random global order (offsets
+// not increasing inside a track, e.g. the first chunk of a track stored after all others), chunks that share bytes (a chunk
+// starting inside the previous one or at the same offset), gaps, back-to-back chunks of different tracks (which addRange
+// merges), and zero-size chunks (all samples of a chunk of size 0). Offsets start at base (>= 0).
+func interleaveWild(rng *hx.Rng, rs []*tbl.Raw, base uint64) {
+	type ck struct{ t, c int }
+	var all []ck
+	xs := make([]*tbl.Ref, len(rs))
+	for i, r := range rs {
+		r.Offs = make([]uint64, len(r.Offs))
+		xs[i] = tbl.Expand(r)
+		if r.Uniform == 0 && xs[i].NChunks > 0 && rng.Intn(3) == 0 {
+			c := rng.Intn(xs[i].NChunks)
+			for n := xs[i].ChunkFirst[c]; n < xs[i].ChunkFirst[c]+xs[i].ChunkCount[c]; n++ {
+				r.Sizes[n-1] = 0
+			}
+			xs[i] = tbl.Expand(r)
+		}
+		for c := 0; c < xs[i].NChunks; c++ {
+			all = append(all, ck{i, c})
+		}
+	}
+	for i := len(all) - 1; i > 0; i-- {
+		j := rng.Intn(i + 1)
+		all[i], all[j] = all[j], all[i]
+	}
+	pos, end := base, base
+	var prevStart, prevSize uint64
+	for _, k := range all {
+		switch rng.Intn(7) {
+		case 0:
+			pos = end + uint64(rng.Range(1, 9))
+		case 1:
+			if prevSize > 0 {
+				pos = prevStart + uint64(rng.Intn(int(prevSize)))
+			}
+		case 2:
+			pos = prevStart
+			if pos < base {
+				pos = base
+			}
+		case 3:
+			pos = end
+		}
+		x := xs[k.t]
+		var sz uint64
+		for n := x.ChunkFirst[k.c]; n < x.ChunkFirst[k.c]+x.ChunkCount[k.c]; n++ {
+			sz += uint64(x.Size[n-1])
+		}
+		rs[k.t].Offs[k.c] = pos
+		prevStart, prevSize = pos, sz
+		pos += sz
+		if pos > end {
+			end = pos
+		}
+	}
+}
+
 var genOpt = tbl.GenOpt{MaxEntries: 4, MaxChunks: 3, MaxSpc: 4, ZeroDeltaPct: 0, VaryIDPct: 35, BigPct: 0, Contiguous: true}
 
 func gen(seed uint64, n int, path string) {
@@ -114,7 +172,11 @@ func gen(seed uint64, n int, path string) {
 		for len(rs) < nt {
 			rs = append(rs, tbl.Gen(rng, genOpt))
 		}
-		interleave(rng, rs, uint64(rng.Range(1, 5000)), rng.Bool())
+		if i%3 == 1 {
+			interleaveWild(rng, rs, uint64(rng.Range(1, 5000)))
+		} else {
+			interleave(rng, rs, uint64(rng.Range(1, 5000)), rng.Bool())
+		}
 		for j := 0; j < 4; j++ {
 			ks := make([]string, len(rs))
 			for t, rr := range rs {
@@ -130,7 +192,7 @@ func gen(seed uint64, n int, path string) {
 	// the 32-bit witness: an stco (then co64) track whose kept payload ends just under 4 GiB, mdat before moov
 	big := &tbl.Raw{SttsC: []uint32{3}, SttsD: []uint32{1000}, StscMode: 'A', Stsc: [][3]uint32{{1, 1, 1}}, Number: 3,
 		Sizes: []uint32{4294960000, 500, 100}, OffKind: 'S', Offs: []uint64{0, 4294960000, 4294960500}, HasStss: true, Stss: []uint32{1, 3}}
-	emit("virt", "1500:1:8:1:8000:1000:4294960600:1:1000", big)
+	emit("virt", "1500:1:8:1:8000:1000:4294960600:1:1000:v", big)
 	if n > 1000 {
 		b2 := big.Clone()
 		b2.OffKind = 'C'
@@ -306,8 +368,24 @@ func genExt(rng *hx.Rng, i int, rs []*tbl.Raw, emit func(op, arg string, rs ...*
 		if between > 0 {
 			pad = rng.Range(0, 40)
 		}
-		emit("virt", fmt.Sprintf("%d:%d:%d:%d:%d:%d:%d:0:%s", ms, rng.Intn(2), rng.Pick(8, 16), between, pad,
-			rng.Pick(1000, 600, 90000), payLen+uint64(rng.Intn(3)), strings.Join(tss, ",")), rel...)
+		// handler types: the reference track is the first "vide" track, else the first "soun" track (none: an error)
+		hs := make([]string, len(rel))
+		for t := range hs {
+			hs[t] = []string{"v", "s", "s", "o"}[rng.Intn(4)]
+		}
+		if rng.Intn(3) > 0 {
+			hs[0] = "v"
+		}
+		mode := "lazy"
+		if rng.Intn(3) == 0 {
+			mode = "mem"
+		}
+		if j == 0 {
+			// the duration grid is made for the first track: keep it the reference track
+			hs[0] = "v"
+		}
+		emit("virt", fmt.Sprintf("%d:%d:%d:%d:%d:%d:%d:0:%s:%s:%s", ms, rng.Intn(2), rng.Pick(8, 16), between, pad,
+			rng.Pick(1000, 600, 90000), payLen+uint64(rng.Intn(3)), strings.Join(tss, ","), strings.Join(hs, ","), mode), rel...)
 	}
 }
 
